@@ -608,6 +608,7 @@ def durable_monitor(steps):
     for i, st in enumerate(steps):
         k = st[0]
         if k == "Mkdir":
+            drop(lambda d: _prefix(st[1], d[1]))
             dirty.append(("E", st[1]))
         elif k == "Create":
             dirty.append(("E", st[1]))
@@ -621,10 +622,10 @@ def durable_monitor(steps):
             drop(lambda d: d == ("W", st[1]))
         elif k == "FsyncD":
             drop(lambda d: d[0] == "E" and d[1][:-1] == st[1] and len(d[1]) > 0)
-        elif k in ("Unlink", "Rmdir"):
+        elif k == "Unlink":
             drop(lambda d: d[1] == st[1])
             dirty.append(("E", st[1]))
-        elif k == "Rmtree":
+        elif k in ("Rmtree", "Rmdir"):
             drop(lambda d: _prefix(st[1], d[1]))
             dirty.append(("E", st[1]))
         elif k == "Rename":
